@@ -436,13 +436,13 @@ Proof.
   symmetry. apply N.ltb_lt. apply N.eqb_neq in E. simpl. lia.
 Qed.
 
-Definition frame_admitted (cfg : ws_cfg) (s : ws_state) (op len : N) : Prop :=
+Definition frame_letin (cfg : ws_cfg) (s : ws_state) (op len : N) : Prop :=
   (c_maxframe cfg <? len) && (0 <? c_maxframe cfg) = false /\
   recvmax_exceeded cfg s op len = false /\
   (len <? 126) || (len <=? c_allocmax cfg) = true.
 
 Lemma ws_header_done_ok cfg s h0 h1 ext len key :
-  hd_len h1 ext = (len, true) -> frame_admitted cfg s (hd_op h0) len -> hd_masked h1 = c_server cfg ->
+  hd_len h1 ext = (len, true) -> frame_letin cfg s (hd_op h0) len -> hd_masked h1 = c_server cfg ->
   (hd_masked h1 = true -> hd_key h1 ext = key) ->
   ws_header_done cfg s h0 h1 ext =
     if len =? 0 then ws_frame_cb cfg s (hd_op h0) (hd_final h0) []
@@ -457,7 +457,7 @@ Qed.
 Lemma ws_feed_frame cfg s key op final payload :
   w_stage s = SHead -> op < 128 -> length key = 4%nat ->
   N.of_nat (length payload) < 2 ^ 64 ->
-  frame_admitted cfg s op (N.of_nat (length payload)) ->
+  frame_letin cfg s op (N.of_nat (length payload)) ->
   ws_feed cfg (mkD s []) (ws_encode (negb (c_server cfg)) key op final payload) =
     let '(s1, e1) := ws_frame_cb cfg s op final payload in (mkD s1 [], e1).
 Proof.
@@ -619,14 +619,14 @@ Proof.
 Qed.
 
 (* the size limits hold for every frame of the run *)
-Fixpoint admitted_along (cfg : ws_cfg) (s : ws_state) (frs : list (N * bool * list byte)) : Prop :=
+Fixpoint letin_along (cfg : ws_cfg) (s : ws_state) (frs : list (N * bool * list byte)) : Prop :=
   match frs with
   | [] => True
   | f :: r =>
       match w_stage s with
       | SHalt => True
-      | _ => frame_admitted cfg s (fr_op f) (N.of_nat (length (fr_payload f))) /\
-             admitted_along cfg (fst (ws_frame_cb cfg s (fr_op f) (fr_final f) (fr_payload f))) r
+      | _ => frame_letin cfg s (fr_op f) (N.of_nat (length (fr_payload f))) /\
+             letin_along cfg (fst (ws_frame_cb cfg s (fr_op f) (fr_final f) (fr_payload f))) r
       end
   end.
 
@@ -638,14 +638,14 @@ Lemma ws_frames_run_halted cfg s frs : w_stage s = SHalt -> ws_frames_run cfg s 
 Proof. intros H. destruct frs; cbn [ws_frames_run]; [reflexivity|]. rewrite H. reflexivity. Qed.
 
 Lemma ws_feed_frames cfg : forall frs keys s,
-  w_stage s = SHead -> frames_encodable keys frs -> admitted_along cfg s frs ->
+  w_stage s = SHead -> frames_encodable keys frs -> letin_along cfg s frs ->
   ws_feed cfg (mkD s []) (ws_encode_frames (negb (c_server cfg)) keys frs) =
     let '(s1, e1) := ws_frames_run cfg s frs in (mkD s1 [], e1).
 Proof.
   induction frs as [|f frs IH]; intros keys s Hs (Hf & Hk & Hk4) Ha.
   - cbn [ws_encode_frames ws_frames_run]. apply ws_feed_nil.
   - destruct f as [[op final] p]. cbn [ws_encode_frames ws_frames_run]. rewrite Hs.
-    cbn [admitted_along] in Ha. rewrite Hs in Ha. cbn [fr_op fr_final fr_payload fst snd] in *.
+    cbn [letin_along] in Ha. rewrite Hs in Ha. cbn [fr_op fr_final fr_payload fst snd] in *.
     destruct Ha as [Ha1 Ha2].
     inversion Hf as [|? ? [Hop Hlen] Hf']; subst. cbn [fr_op fr_payload fst snd] in *.
     destruct keys as [|k keys]; [cbn in Hk; lia|]. inversion Hk4 as [|? ? Hk0 Hk4']; subst.
@@ -660,14 +660,14 @@ Proof.
       cbn [d_inner]. reflexivity.
 Qed.
 
-(* with no configured limits every frame is admitted *)
-Lemma admitted_unlimited cfg : c_maxframe cfg = 0 -> c_recvmax cfg = 0 -> forall frs s,
-  Forall (fun f => N.of_nat (length (fr_payload f)) <= c_allocmax cfg) frs -> admitted_along cfg s frs.
+(* with no configured limits every frame is letin *)
+Lemma letin_unlimited cfg : c_maxframe cfg = 0 -> c_recvmax cfg = 0 -> forall frs s,
+  Forall (fun f => N.of_nat (length (fr_payload f)) <= c_allocmax cfg) frs -> letin_along cfg s frs.
 Proof.
-  intros M R. induction frs as [|f frs IH]; intros s H; cbn [admitted_along]; [exact I|].
+  intros M R. induction frs as [|f frs IH]; intros s H; cbn [letin_along]; [exact I|].
   inversion H; subst.
-  assert (A: frame_admitted cfg s (fr_op f) (N.of_nat (length (fr_payload f)))).
-  { unfold frame_admitted, recvmax_exceeded. rewrite M, R. change (0 <? 0) with false.
+  assert (A: frame_letin cfg s (fr_op f) (N.of_nat (length (fr_payload f)))).
+  { unfold frame_letin, recvmax_exceeded. rewrite M, R. change (0 <? 0) with false.
     rewrite !andb_false_r. cbn [andb]. split; [reflexivity|]. split; [reflexivity|].
     apply orb_true_iff. right. apply N.leb_le. assumption. }
   destruct (w_stage s); try exact I; (split; [exact A|apply IH; assumption]).
@@ -876,7 +876,7 @@ Qed.
 
 (* ---- the byte-level statements ---- *)
 Lemma ws_reassembly_bytes cfg frs ms keys :
-  c_isstream cfg = false -> msg_seq cfg frs ms -> frames_encodable keys frs -> admitted_along cfg ws_init frs ->
+  c_isstream cfg = false -> msg_seq cfg frs ms -> frames_encodable keys frs -> letin_along cfg ws_init frs ->
   forall p rest, concat (p :: rest) = ws_encode_frames (negb (c_server cfg)) keys frs ->
   let '(d, e) := ws_feed_all cfg ws_dinit (p :: rest) in deliveries e = ms /\ d = ws_dinit.
 Proof.
@@ -908,7 +908,7 @@ Lemma ws_fragmentation_bytes cfg send_text fragsize data keys :
   N.of_nat (length data) < 2 ^ 64 ->
   let frs := ws_send_frames false send_text fragsize data in
   (length frs <= length keys)%nat -> Forall (fun k => length k = 4%nat) keys ->
-  admitted_along cfg ws_init frs ->
+  letin_along cfg ws_init frs ->
   forall p rest, concat (p :: rest) = ws_encode_frames (negb (c_server cfg)) keys frs ->
   let '(d, e) := ws_feed_all cfg ws_dinit (p :: rest) in deliveries e = [data] /\ d = ws_dinit.
 Proof.
